@@ -75,6 +75,8 @@ fn check_arr(c: &ArrCase) -> CheckResult {
         }
     };
     let h = c.horizon.max(2 * c.spec.scale().min(300));
+    // steps of the freshly built object, before any other query (a cold cache must not matter)
+    let cold = guard(|| pull_steps(ab.steps_iter(), h));
     let vals: Vec<u64> = match guard(|| (0..=h).map(|x| ab.number_arrivals(d(x)) as u64).collect::<Vec<_>>()) {
         Ok(v) => v,
         Err(_) => {
@@ -84,6 +86,17 @@ fn check_arr(c: &ArrCase) -> CheckResult {
     };
     let got = guard(|| pull_steps(ab.steps_iter(), h)).map_err(|e| format!("steps_iter panicked: {}", e))?;
     out.inner = 1;
+    match &cold {
+        Ok(cv) if *cv == got => {}
+        Ok(cv) => {
+            return Err(format!(
+                "steps_iter of the freshly built object yields {:?}... but after number_arrivals queries it yields {:?}...",
+                &cv[..cv.len().min(10)],
+                &got[..got.len().min(10)]
+            ))
+        }
+        Err(e) => return Err(format!("steps_iter of the freshly built object panicked: {}", e)),
+    }
     if let Err(msg) = compare_steps(&got, &vals, h) {
         // known finding: a direct ArrivalCurvePrefix yields a leading 0 (pinned by the crate's own test)
         if c.spec.exposes_direct_acp() && got.first() == Some(&0) && compare_steps(&got[1..], &vals, h).is_ok() {
